@@ -70,8 +70,10 @@ fn case_strategy(tier: Tier, ex: Excl, wx: crate::props::c02::WhereExcl) -> Boxe
                     1 => Just(if with_show { MOp::RememberAgain } else { MOp::Barrier }),
                 ]
             };
+            // one case in five REMEMBERs on an empty store (nothing before it): the materialisation starts without a
+            // high-water mark and everything arrives through refreshes
             let wh = where_strategy(&td, 2);
-            (Just(cfg), Just(td), Just(n_ctx), prop::collection::vec(op(false), 4..=tier.pick(20, 40)), opt_w(0.6, wh), opt_w(0.3, 0..n_ctx), any::<bool>(), prop::collection::vec(op(true), 4..=tier.pick(30, 60)))
+            (Just(cfg), Just(td), Just(n_ctx), prop_oneof![1 => Just(Vec::<MOp>::new()), 4 => prop::collection::vec(op(false), 4..=tier.pick(20, 40))], opt_w(0.6, wh), opt_w(0.3, 0..n_ctx), any::<bool>(), prop::collection::vec(op(true), 4..=tier.pick(30, 60)))
         })
         .prop_map(move |(cfg, td, n_ctx, before, wh, ctx, ret_k, after)| {
             let wh = wh.filter(|w| !wx.excluded(&td, w));
